@@ -334,13 +334,37 @@ func (e *mergeEnv) compiledMerge(in mergeInput, K int) {
 		}
 		perParent = append(perParent, pb)
 	}
-	var batches [][]zed.Value
-	for b := 0; b < maxB; b++ {
-		for _, pb := range perParent {
-			if b < len(pb) {
-				batches = append(batches, pb[b])
+	// One input batch holding every value (the parents' values interleaved, each
+	// parent's own order kept): fork copies it to every leg and each leg's filter
+	// keeps its parent's values, so every merge parent sees exactly one batch.
+	// (Inputs spread over several batches can deadlock fork|merge when the legs
+	// are skewed -- see the final report; a hang is not something this check may
+	// wait for.)
+	_ = maxB
+	var flatP [][]zed.Value
+	for _, pb := range perParent {
+		var f []zed.Value
+		for _, b := range pb {
+			f = append(f, b...)
+		}
+		flatP = append(flatP, f)
+	}
+	var one []zed.Value
+	for i := 0; ; i++ {
+		more := false
+		for _, f := range flatP {
+			if i < len(f) {
+				one = append(one, f[i])
+				more = true
 			}
 		}
+		if !more {
+			break
+		}
+	}
+	var batches [][]zed.Value
+	if len(one) > 0 {
+		batches = append(batches, one)
 	}
 	prog := "fork (" + strings.Join(legs, " ") + ") | merge k"
 	res := flowh.RunReaders(context.Background(), prog, flowh.Opts{Zctx: u.zctx}, u.zctx, &batchReader{batches: batches})
